@@ -311,7 +311,7 @@ def constants(ck, agg, b):
     # mac setter: at least 6 bytes
     f_mac = P.method(b.cls, "mac", "set")
     n = 1
-    for arg, label in ((Const(0x112233445566), "int"), (Bytes([(("param", "address"), Const(3))], "bytes"), "3 bytes"), (Bytes([(("param", "address"), Const(6))], "bytes"), "6 bytes"), (Const(None), "None")):
+    for arg, label in ((Const(0x112233445566), "int"), (Const(0), "int 0"), (Const(1), "int 1"), (Bytes([(("param", "address"), Const(3))], "bytes"), "3 bytes"), (Bytes([(("param", "address"), Const(6))], "bytes"), "6 bytes"), (Const(None), "None")):
         n += 1
         st = b.fresh(fields={"_mac": Bytes([(("sym", "oldmac"), Const(6))], "bytes")})
         for out in b.run(f_mac, [arg], st):
@@ -321,6 +321,17 @@ def constants(ck, agg, b):
             m = b.obj(out.state).fields.get("_mac")
             ln = const_of(norm(m.length())) if isinstance(m, Bytes) else None
             agg.add("R18.6", f_mac, "the MAC is always 6 bytes after assignment", ln == TB.MAC_LEN, "mac = %s gives %r bytes" % (label, ln))
+            # "the PDU contains the configured MAC": what is stored begins with the value that was given - every int (0 included) as its
+            # 6-byte little-endian image, bytes as they are; only the missing tail of a short address (and None) is drawn at random
+            first = m.parts[0][0] if isinstance(m, Bytes) and m.parts else None
+            if label.startswith("int"):
+                okv = first is not None and first[0] == "to_bytes" and first[1] == arg.v and "little" in first[2] and len(m.parts) == 1
+            elif label.endswith("bytes"):
+                okv = first == ("param", "address")
+            else:
+                okv = first is not None and first[0] == "random"
+            agg.add("R18.6", f_mac, "the stored MAC is the configured one (int: 6-byte little-endian image, bytes: as given, None: random)", okv,
+                    "mac = %s (%r) stores %r" % (label, getattr(arg, "v", "<bytes>"), m))
     return n
 
 
